@@ -1,6 +1,6 @@
-(** * UnitsR: the regenerated unit tables and conversion, interpreted over the reals, against [Spec]. *)
+(** * UnitsR: the regenerated unit tables and conversion, interpreted over the reals. *)
 From Coq Require Import ZArith QArith Reals Lra Lia Qreals String List Bool.
-From GP Require Import ArithDef UnitsCore PyUnits RealArith Spec.
+From GP Require Import ArithDef UnitsCore PyUnits RealArith.
 From GP.gen Require Import UnitsGen.
 Import ListNotations.
 Open Scope R_scope.
@@ -8,117 +8,40 @@ Open Scope R_scope.
 Notation rqty := (qty RA).
 Definition G := GEN.
 
-(** ** Normal form q * PI^z of a factor expression *)
-Fixpoint fnorm (e : fexpr) : Q * Z :=
+(** ** Positivity of every generated factor, by reflection on the generated expressions (independent of [Spec]) *)
+Fixpoint fpos (e : fexpr) : bool :=
   match e with
-  | FPi => (1%Q, 1%Z)
-  | FNum q _ => (q, 0%Z)
-  | FMul a b => let (qa, za) := fnorm a in let (qb, zb) := fnorm b in ((qa * qb)%Q, (za + zb)%Z)
-  | FDiv a b => let (qa, za) := fnorm a in let (qb, zb) := fnorm b in ((qa / qb)%Q, (za - zb)%Z)
+  | FPi => true
+  | FNum q _ => match Qcompare 0 q with Lt => true | _ => false end
+  | FMul a b | FDiv a b => fpos a && fpos b
   end.
-(** every divisor has a non-zero rational part *)
-Fixpoint fnorm_ok (e : fexpr) : bool :=
-  match e with
-  | FPi | FNum _ _ => true
-  | FMul a b => fnorm_ok a && fnorm_ok b
-  | FDiv a b => fnorm_ok a && fnorm_ok b && negb (Qeq_bool (fst (fnorm b)) 0)
-  end.
-Definition sival (s : sifactor) : R := Q2R (fst s) * powerRZ PI (snd s).
-
-Lemma PI_neq0' : PI <> 0. Proof. apply PI_neq0. Qed.
-
-Lemma fnorm_sound e : fnorm_ok e = true -> @feval RA e = sival (fnorm e).
+Lemma fpos_sound e : fpos e = true -> 0 < @feval RA e.
 Proof.
-  induction e as [|q f|a IHa b IHb|a IHa b IHb]; cbn [fnorm_ok fnorm feval]; intros H.
-  - unfold sival; cbn. unfold Q2R; cbn. rewrite Rinv_1. change (Pos.to_nat 1) with 1%nat. cbn. lra.
-  - unfold sival; cbn. lra.
-  - apply andb_true_iff in H as [Ha Hb]. rewrite (IHa Ha), (IHb Hb).
-    destruct (fnorm a) as [qa za], (fnorm b) as [qb zb]. unfold sival; cbn [fst snd].
-    change (@mul RA) with Rmult. change (num RA) with R. rewrite Q2R_mult, powerRZ_add by apply PI_neq0'. ring.
-  - apply andb_true_iff in H as [H Hn]. apply andb_true_iff in H as [Ha Hb]. rewrite (IHa Ha), (IHb Hb).
-    destruct (fnorm a) as [qa za], (fnorm b) as [qb zb]. unfold sival; cbn [fst snd] in *.
-    apply negb_true_iff in Hn. apply Qeq_bool_neq in Hn.
-    change (@div RA) with Rdiv. change (num RA) with R. rewrite Q2R_div by exact Hn.
-    unfold Zminus. rewrite powerRZ_add by apply PI_neq0'. rewrite powerRZ_neg'.
-    assert (Q2R qb <> 0). { intro E. apply Hn. apply eqR_Qeq. rewrite E. unfold Q2R; cbn; lra. }
-    assert (powerRZ PI zb <> 0) by (apply powerRZ_NOR; apply PI_neq0').
-    unfold Rdiv. field. split; assumption.
+  induction e as [|q f|a IHa b IHb|a IHa b IHb]; cbn [fpos feval]; intros H.
+  - apply PI_RGT_0.
+  - destruct (Qcompare 0 q) eqn:E; try discriminate. cbn. replace 0 with (Q2R 0) by (unfold Q2R; cbn; lra). apply Qlt_Rlt. exact E.
+  - apply andb_true_iff in H as [Ha Hb]. change (@mul RA) with Rmult. apply Rmult_lt_0_compat; auto.
+  - apply andb_true_iff in H as [Ha Hb]. change (@div RA) with Rdiv. apply Rdiv_lt_0_compat; auto.
 Qed.
-
-(** ** The generated tables equal the SI tables of [Spec] *)
-Definition entry_match (g : string * fexpr) (s : string * sifactor) : bool :=
-  String.eqb (fst g) (fst s) && fnorm_ok (snd g) && Qeq_bool (fst (fnorm (snd g))) (fst (snd s))
-  && Z.eqb (snd (fnorm (snd g))) (snd (snd s)).
-Fixpoint list_match (l : list (string * fexpr)) (s : list (string * sifactor)) : bool :=
-  match l, s with
-  | [], [] => true
-  | g :: l', e :: s' => entry_match g e && list_match l' s'
-  | _, _ => false
-  end.
-Definition tables_match : bool := forallb (fun k => list_match (@units_of G k) (spec_units k)) all_kinds.
-Lemma tables_match_true : tables_match = true.
-Proof. vm_compute. reflexivity. Qed.
-
-Fixpoint spec_lookup (u : string) (s : list (string * sifactor)) : option sifactor :=
-  match s with [] => None | (u', f) :: s' => if String.eqb u u' then Some f else spec_lookup u s' end.
-Definition spec_factor (k : kind) (u : string) : option sifactor := spec_lookup u (spec_units k).
-
-Lemma sival_Qeq q q' z : Qeq q q' -> sival (q, z) = sival (q', z).
-Proof. intros H. unfold sival; cbn. rewrite (Qeq_eqR _ _ H). reflexivity. Qed.
-
-Lemma lookup_match l s u : list_match l s = true ->
-  @lookup RA u l = match spec_lookup u s with Some f => Ok (sival f) | None => Err KeyError end.
+Definition all_tables_pos : bool := forallb (fun k => forallb (fun p => fpos (snd p)) (@units_of G k)) all_kinds.
+Lemma all_tables_pos_true : all_tables_pos = true. Proof. vm_compute. reflexivity. Qed.
+Lemma lookup_pos u l f : forallb (fun p => fpos (snd p)) l = true -> @lookup RA u l = Ok f -> 0 < f.
 Proof.
-  revert s. induction l as [|[u1 e] l IH]; intros [|[u2 f] s]; cbn [list_match lookup spec_lookup]; intros H; try discriminate.
-  - reflexivity.
-  - apply andb_true_iff in H as [H Hl]. unfold entry_match in H; cbn [fst snd] in H.
-    apply andb_true_iff in H as [H Hz]. apply andb_true_iff in H as [H Hq]. apply andb_true_iff in H as [Hu Hok].
-    apply String.eqb_eq in Hu. subst u2.
-    destruct (String.eqb u u1).
-    + rewrite (fnorm_sound e Hok). f_equal. destruct (fnorm e) as [q z]; destruct f as [q' z']; cbn [fst snd] in *.
-      apply Z.eqb_eq in Hz. subst z'. apply sival_Qeq. apply Qeq_bool_iff. exact Hq.
-    + apply IH. exact Hl.
-Qed.
-
-(** C05 (a): for every kind and every unit name, the factor the code uses is the SI definition; unknown names are KeyError. *)
-Theorem factor_is_SI k u :
-  @factor RA G k u = match spec_factor k u with Some f => Ok (sival f) | None => Err KeyError end.
-Proof.
-  unfold factor, spec_factor. apply lookup_match.
-  generalize tables_match_true. unfold tables_match. rewrite forallb_forall. intros Hall. apply Hall.
-  destruct k; cbn; tauto.
-Qed.
-
-(** ** Positivity *)
-Definition spec_pos : bool := forallb (fun k => forallb (fun e => match Qcompare 0 (fst (snd e)) with Lt => true | _ => false end) (spec_units k)) all_kinds.
-Lemma spec_pos_true : spec_pos = true. Proof. vm_compute. reflexivity. Qed.
-Lemma sival_pos q z : (0 < q)%Q -> 0 < sival (q, z).
-Proof.
-  intros Hq. unfold sival; cbn. apply Rmult_lt_0_compat.
-  - replace 0 with (Q2R 0) by (unfold Q2R; cbn; lra). apply Qlt_Rlt. exact Hq.
-  - apply powerRZ_lt. apply PI_RGT_0.
-Qed.
-Lemma spec_lookup_in u s f : spec_lookup u s = Some f -> In (u, f) s.
-Proof.
-  induction s as [|[u' f'] s IH]; cbn; intros H; [discriminate|].
-  destruct (String.eqb u u') eqn:E.
-  - apply String.eqb_eq in E. subst. injection H as <-. left; reflexivity.
-  - right. apply IH. exact H.
-Qed.
-Lemma spec_factor_pos k u f : spec_factor k u = Some f -> 0 < sival f.
-Proof.
-  intros H. apply spec_lookup_in in H.
-  generalize spec_pos_true. unfold spec_pos. rewrite forallb_forall. intros Hall.
-  assert (Hk : In k all_kinds) by (destruct k; cbn; tauto).
-  specialize (Hall k Hk). rewrite forallb_forall in Hall. specialize (Hall _ H). cbn [fst snd] in Hall.
-  destruct f as [q z]. cbn [fst snd] in Hall. apply sival_pos.
-  destruct (Qcompare 0 q) eqn:E; try discriminate. exact E.
+  induction l as [|[u' e] l IH]; cbn; intros Hl H; [discriminate|].
+  apply andb_true_iff in Hl as [He Hl]. destruct (String.eqb u u').
+  - injection H as <-. apply fpos_sound; exact He.
+  - apply IH; assumption.
 Qed.
 Theorem factor_pos k u f : @factor RA G k u = Ok f -> 0 < f.
 Proof.
-  rewrite factor_is_SI. destruct (spec_factor k u) as [s|] eqn:E; [|discriminate].
-  intros H. injection H as <-. eapply spec_factor_pos; eauto.
+  unfold factor. apply lookup_pos.
+  generalize all_tables_pos_true. unfold all_tables_pos. rewrite forallb_forall. intros Hall. apply Hall.
+  destruct k; cbn; tauto.
 Qed.
+Lemma lookup_err u l e : @lookup RA u l = Err e -> e = KeyError.
+Proof. induction l as [|[u' x] l IH]; cbn; intros H; [injection H as <-; reflexivity|]. destruct (String.eqb u u'); [discriminate|auto]. Qed.
+Lemma factor_err k u e : @factor RA G k u = Err e -> e = KeyError.
+Proof. apply lookup_err. Qed.
 
 (** ** Conversion *)
 Definition to_std : texpr := TDiv (TMul TValue TFactorSelf) TFactorTarget.
